@@ -9,6 +9,7 @@ import concurrent.futures as cf
 import os, random, re, shutil, subprocess, sys, tempfile
 
 HERE = os.path.dirname(os.path.dirname(os.path.abspath(__file__)))
+STRINGS_MODE = False
 PIDS = [f"C{i:02d}" for i in range(1, 20)]
 FILES = ["gtwrap/pybind_wrapper.py", "gtwrap/matlab_wrapper/wrapper.py", "gtwrap/matlab_wrapper/mixins.py",
          "gtwrap/template_instantiator/helpers.py", "gtwrap/template_instantiator/classes.py", "gtwrap/template_instantiator/namespace.py",
@@ -28,7 +29,61 @@ OPS = [
 ]
 
 
+STRING_OPS = [
+    (r"\b0\b", "1"), (r"\b1\b", "2"), (r"\b1\b", "0"), (r"\b2\b", "1"), (r"\b2\b", "3"), (r"(?<![=~!<>])==(?!=)", "~="), (r"&&", "||"), (r"\|\|", "&&"),
+    (r"nargin-1", "nargin"), (r"in\+1", "in"), (r"\bout\[", "in["), (r"\bin\[", "out["), (r"-1\b", "-0"), (r"\+1\b", "+0"),
+    (r"\bnargout\b", "nargin"), (r"\bvarargin\b", "varargout"), (r"\bbegin\(\)", "end()"), (r"\bfalse\b", "true"), (r"\btrue\b", "false"),
+    (r"\binsert\b", "erase"), (r"\berase\b", "insert"), (r"\bdelete\b", ""), (r"!=", "=="), (r"~=", "=="),
+]
+
+
+def string_candidates(root):
+    """One-token edits *inside* string literals: the text of the generated C++ / MATLAB code."""
+    out = []
+    for rel in STRING_FILES:
+        p = os.path.join(root, rel)
+        if not os.path.exists(p):
+            continue
+        lines = open(p).read().split("\n")
+        in_tpl = in_doc = False
+        for i, ln in enumerate(lines):
+            st = ln.strip()
+            tq = st.count('"""') + st.count("'''")
+            if not in_tpl and not in_doc and tq % 2 == 1:
+                if st.startswith(('"""', "'''", 'r"""')):
+                    in_doc = True
+                else:
+                    in_tpl = True
+                continue
+            if in_doc:
+                if tq % 2 == 1:
+                    in_doc = False
+                continue
+            if in_tpl and tq % 2 == 1:
+                in_tpl = False
+                continue
+            if not st or st.startswith("#"):
+                continue
+            for pat, rep in STRING_OPS:
+                for m in re.finditer(pat, ln):
+                    pre = ln[:m.start()]
+                    inside = in_tpl or (pre.count("'") - pre.count("\\'")) % 2 == 1 or (pre.count('"') - pre.count('\\"')) % 2 == 1
+                    if not inside:
+                        continue
+                    if re.search(r"\{[^{}]*$", pre) and re.match(r"[^{}]*\}", ln[m.end():]) and not pre.endswith("{{"):
+                        continue        # inside a format field
+                    new = ln[:m.start()] + rep + ln[m.end():]
+                    if new != ln:
+                        out.append((rel, i, ln, new, f"text: {pat} -> {rep}"))
+    return out
+
+
+STRING_FILES = ["gtwrap/matlab_wrapper/wrapper.py", "gtwrap/matlab_wrapper/templates.py", "gtwrap/matlab_wrapper/mixins.py", "gtwrap/pybind_wrapper.py"]
+
+
 def candidates(root):
+    if STRINGS_MODE:
+        return string_candidates(root)
     out = []
     for rel in FILES:
         p = os.path.join(root, rel)
@@ -100,6 +155,7 @@ def run(m):
 
 
 def main():
+    global STRINGS_MODE
     seed, mx, files = 1, 200, None
     a = sys.argv[1:]
     while a:
@@ -110,6 +166,8 @@ def main():
             mx = int(a.pop(0))
         elif k == "--files":
             files = a.pop(0).split(",")
+        elif k == "--strings":
+            STRINGS_MODE = True
     global FILES
     if files:
         FILES = files
